@@ -2006,10 +2006,18 @@ class UserSpaceImpl(*_user_space_impl_base):
             if name != "__builtins__":
                 self.model.clear_attr_referrers(ref)
 
+    def _clear_tree_subs_rootitems(self):
+        self.clear_subs_rootitems()
+        for child in self.named_spaces.values():
+            child._clear_tree_subs_rootitems()
+
     def on_rename(self, name):
         self.model.clear_obj(self)
         self.clear_all_cells(clear_input=True, recursive=True, del_items=True)
         self.clear_refs_referrers(recursive=True)
+        # ItemSpaces of other spaces that are built on this space
+        # or on its child spaces were created under the old name
+        self._clear_tree_subs_rootitems()
         old_name = self.name
         self.name = name
         self.parent.named_spaces.rename_item(old_name, name)
